@@ -25,6 +25,7 @@ Anything malformed: "bad-request <where>".
 -/
 import Driver.PipeBuiltins
 import TeraModel.Model.Pipeline
+import TeraModel.Model.PipelineWire
 import TeraModel.Model.InstrWire
 open Tera Tera.Pipeline PipeDrv
 
@@ -64,10 +65,9 @@ def pDelims : P Delims
             commentStart := cs, commentEnd := ce }, r)
   | _ => none
 
-def builtins : Builtins :=
-  { callFilter := callFilterImpl, filterIsSafe := fun _ => false, callTest := callTestImpl,
-    callFunction := callFunctionImpl, functionIsSafe := fun _ => false, F := nativeOps,
-    fmtF64 := fmtF64 }
+/-- the built-in instance `engine_never_panics_concrete` (Props/Pipeline.lean) is about, with the
+driver's float printer and the hardware float arithmetic -/
+def builtins : Builtins := Tera.Pipeline.BuiltinsM.model fmtF64 nativeOps
 
 def pConfig : P Config := fun ts => do
   let (d, r) ← pDelims ts
@@ -154,68 +154,16 @@ def showAddErr : AddErr → String
   | .unchecked w => "unchecked " ++ w.replace " " "_"
 
 def hexName (s : String) : String := InstrWire.hexOfName s
-def boolText (b : Bool) : String := if b then "t" else "f"
-def flagsText (l : List Bool) : String := String.ofList (l.map fun b => if b then 't' else 'f')
 
-/-- a typed instruction in the wire form of `verif_hooks::vm_env_wire` (inverse of
-`Vm.decodeWith`) -/
-def wireOf : Vm.VInstr → Instr
-  | .loadConst v => .other "LoadConst" (Wire.hexOfStr (Wire.showValue v).toList)
-  | .loadName n => .loadName n
-  | .loadAttr a false => .loadAttr a
-  | .loadAttr a true => .other "LoadAttrOpt" (hexName a)
-  | .binarySubscript false => .other "BinarySubscript" ""
-  | .binarySubscript true => .other "BinarySubscriptOpt" ""
-  | .slice false => .other "Slice" ""
-  | .slice true => .other "SliceOpt" ""
-  | .writeText t => .other "WriteText" (Wire.hexOfStr t)
-  | .writeTop => .writeTop
-  | .set n false => .other "Set" (hexName n)
-  | .set n true => .other "SetGlobal" (hexName n)
-  | .include_ n => .other "Include" (hexName n)
-  | .buildMap n => .other "BuildMap" (toString n)
-  | .buildList n => .other "BuildList" (toString n)
-  | .buildMapWithSpreads l => .other "BuildMapWithSpreads" (flagsText l)
-  | .buildListWithSpreads l => .other "BuildListWithSpreads" (flagsText l)
-  | .callFunction n => .other "CallFunction" (hexName n)
-  | .renderComponent n false => .other "RenderInlineComponent" (hexName n)
-  | .renderComponent n true => .other "RenderBodyComponent" (hexName n)
-  | .applyFilter n => .other "ApplyFilter" (hexName n)
-  | .runTest n => .other "RunTest" (hexName n)
-  | .renderBlock n => .other "RenderBlock" (hexName n)
-  | .jump t => .jump t
-  | .popJumpIfFalse t => .popJumpIfFalse t
-  | .jumpIfFalseOrPop t => .jumpIfFalseOrPop t
-  | .jumpIfTrueOrPop t => .jumpIfTrueOrPop t
-  | .capture => .other "Capture" ""
-  | .endCapture => .other "EndCapture" ""
-  | .startIterate kv false => .other "StartIterate" (boolText kv)
-  | .startIterate kv true => .other "StartIterateComprehension" (boolText kv)
-  | .iterate t => .iterate t
-  | .storeLocal n => .other "StoreLocal" (hexName n)
-  | .storeDidNotIterate => .other "StoreDidNotIterate" ""
-  | .break_ => .other "Break" ""
-  | .popLoop => .other "PopLoop" ""
-  | .appendToList => .other "AppendToList" ""
-  | .math .mul => .other "Mul" ""
-  | .math .div => .other "Div" ""
-  | .math .floorDiv => .other "FloorDiv" ""
-  | .math .mod => .other "Mod" ""
-  | .math .minus => .other "Minus" ""
-  | .math .power => .other "Power" ""
-  | .plus => .other "Plus" ""
-  | .cmp .lt => .other "LessThan" ""
-  | .cmp .gt => .other "GreaterThan" ""
-  | .cmp .le => .other "LessThanOrEqual" ""
-  | .cmp .ge => .other "GreaterThanOrEqual" ""
-  | .equal false => .other "Equal" ""
-  | .equal true => .other "NotEqual" ""
-  | .strConcat => .other "StrConcat" ""
-  | .in_ => .other "In" ""
-  | .not_ => .other "Not" ""
-  | .negative => .other "Negative" ""
-  | .loadPath p => .loadPath p
-  | .writePath p => .writePath p
+
+
+def enc : Compiler.Enc where
+  name := InstrWire.hexOfName
+  value := fun v => Wire.hexOfStr (Wire.showValue v).toList
+
+/-- a typed instruction in the wire form of `verif_hooks::vm_env_wire`: `Pipeline.wireV` (the
+printer `stored_chunks_wellformed` of Props/Pipeline.lean is about) with the real payload encoders -/
+def wireOf (v : Vm.VInstr) : Instr := wireV enc v
 
 def showChunk (c : Vm.Chunk) : String :=
   " CH " ++ AstWire.showName c.name ++ s!" I{c.code.length}" ++
@@ -306,10 +254,6 @@ def showTok : Tok → String
   | .float x => "float:" ++ Wire.natHex16 x.toBits
   | .bool b => "bool" ++ AstWire.flag b
   | t => (punctName t).getD "?"
-
-def enc : Compiler.Enc where
-  name := InstrWire.hexOfName
-  value := fun v => Wire.hexOfStr (Wire.showValue v).toList
 
 def showCode (c : Compiler.Code) : List String :=
   (Compiler.toEntries enc c).map fun e => InstrWire.showInstr e.1 ++ "@" ++ String.intercalate ";" e.2
